@@ -162,6 +162,15 @@ def check_frame(case, acc, full=True):
   t3.add_frames()
   if _label_of(t3) != _label_of(SmpteTimeCode.from_frames(k + 2, rate)):
     _viol(acc, "C12.add", f"rate={rs},n=1+1", c, _label_of(t3), k + 2, fam, idx)
+  # an object that has answered every query and is then advanced answers for its new position (no stale state)
+  t4 = SmpteTimeCode.from_frames(k, rate)
+  _pre = (t4.to_temporal_offset(), t4.to_frames(), str(t4), t4.is_drop_frame())
+  t4.add_frames(1)
+  t5 = SmpteTimeCode.from_frames(k + 1, rate)
+  got4 = [repr(t4.to_temporal_offset()), t4.to_frames(), str(t4)]
+  want4 = [repr(Fraction(k + 1) / rate), k + 1, str(t5)]
+  if got4 != want4:
+    _viol(acc, "C12.add.requery", f"rate={rs}", c, got4, want4, fam, idx, "queries before add_frames(1) must not influence the answers after it")
   # a time exactly on the frame boundary converts to that frame
   t = Fraction(k) / rate
   fs = SmpteTimeCode.from_seconds(t, rate)
